@@ -42,6 +42,12 @@ func zzC03(n int, percent, sharedVariants bool) {
 		ds.Spec.Strategy.RollingUpdate.MaxUnavailable = zzIntOrString("maxUnavailable", n+2)
 		ds.Spec.Strategy.RollingUpdate.MaxPodSchedulerFailure = zzIntOrString("maxSchedFail", n+2)
 	}
+	// the creation side may be throttled (slow start of one pod per interval, just activated) so that
+	// fewer pods may be created than nodes lack one: U still counts every node without an available pod
+	if !percent && nondet.Bool("slowStartOfOne") {
+		one := intstr.FromInt(1)
+		ds.Spec.Strategy.RollingUpdate.SlowStartAdditiveIncrease = &one
+	}
 	rs := zzReplicaSet()
 	// concrete shape: categories fork here
 	for i := range cats {
